@@ -460,7 +460,7 @@ def main():
                         print('  %s K=%d K\'=%d: %d paths, %.1fs' % (op, ka, kb, n, time.time() - t1), file=sys.stderr)
                     per['%s K=%d K\'=%d' % (op, ka, kb)] = n
         contains_check(ex, rep, stats)
-        rep.coverage = {
+        cov11 = {
             'evaluations': stats['queries'] + ex.queries,
             'distinct_nontrivial': stats['nontrivial'],
             'rule': 'one case = one control-flow path of the real MIR of insert/insert_ranges/remove_ranges from an arbitrary valid '
@@ -482,6 +482,11 @@ def main():
             'std summaries: ' + '; '.join(SM.SUMMARY_DOC),
             'executor validated on %d concrete cases against the natively compiled functions' % ncases,
         ]
+        # class expressions end to end (regex_to_range_map, code generation) through one-character lexers
+        import lexcheck
+        lexcheck.run_lex(rep, 'C11', extra_coverage=cov11)
+        if not rep.coverage:
+            rep.coverage = cov11
     except (Inconclusive, BuildError) as e:
         rep.inconc(str(e)[:2000])
     return rep.finish()
